@@ -240,3 +240,4 @@ def run(chk, F):
     chk.run_rule("C03.miss-table", "parse / magic / checksum / range errors drop the index entry and read as a miss, never as an entry", 7, miss_table, F)
     chk.run_rule("C03.recover-mode", "recover mode table on scanner error: None skips, Quiet stops the block, Strict fails", 3, recover_mode, F)
     chk.run_rule("C03.key-guard", "a disk hit is handed out only if the decoded key is equivalent to the requested key", 3, common.key_guard, F)
+    chk.run_rule("C03.io-result-checked", "the Result of every device read / write in the block engine is propagated, matched or handed on — never dropped", 9, common.io_result_checked, F)
